@@ -267,7 +267,7 @@ def _canon_doc(d):
 
 def snapshot(server, errs, docpool, nbpool):
     ws = server.workspace
-    conv = server.protocol._converter
+    conv = server.protocol.fm.converter      # (public: the converter the server was built with)
     snap = {}
     snap["docs"] = sorted([un_doc(u)] + _canon_doc(d) for u, d in ws.text_documents.items())
     snap["nbs"] = sorted([un_nb(u), _canon_nb(conv, nb)] for u, nb in ws.notebook_documents.items())
@@ -1061,3 +1061,8 @@ def _regenerate(self, chk):
 
 
 C10.regenerate = _regenerate
+
+# Link theorem Workspace.v <-> Dispatch.v (coq/Proofs/LinkWorkspaceDispatch.v)
+C10.obligations = list(C10.obligations) + ["Proofs.LinkWorkspaceDispatch::" + n for n in (
+    "link_workspace_dispatch", "link_reference", "link_step", "link_needs_sync_kind")]
+C10.coq_targets = list(C10.coq_targets) + ["Proofs/LinkWorkspaceDispatch.vo"]
